@@ -15,7 +15,7 @@ def main():
     if a.replay:
         rp = json.load(open(a.replay))
         sys.exit(mod.replay(rp))
-    run = vlib.Run(a.prop, a.tier, seed)
+    run = vlib.Run(a.prop, a.tier, seed, getattr(mod, "LEVEL", "proof"))
     try:
         mod.check(run)
     except vlib.Broken as e:
